@@ -391,7 +391,8 @@ package stake
 //@   assert@call(ImmutableLedgerAt,4): $arg0 == req.Height && $target == ctrler.delegateeLedger               [C19]
 //@   assert@call(Read,0): immuheight[$target] == req.Height && $arg0 == lkey(content(req.Data))               [C19]
 //@   assert@call(Read,1): immuheight[$target] == req.Height && $arg0 == lkey(content(req.Data))               [C19]
-//@   loop 0: invariant true
+//@   cbinv@call(IterateReadAllItems,2): forall i :: 0 <= i && i < len(delegatees) ==> delegatees[i] != nil      [C09]
+//@   loop 0: invariant forall i :: 0 <= i && i < len(validators) ==> validators[i] != nil
 
 // the aggregation callbacks of the power queries (C11: the total-power queries equal the corresponding sums):
 // stakes/total_power adds the total power of every delegatee of the view, unconditionally;
@@ -405,6 +406,8 @@ package stake
 //@ func (ctrler *StakeCtrler) Query__3(d)
 //@   nopanic
 //@   requires d != nil
+//@   requires forall i :: 0 <= i && i < len(delegatees) ==> delegatees[i] != nil
+//@   ensures forall i :: 0 <= i && i < len(delegatees) ==> delegatees[i] != nil
 //@   assumes ctrler != nil && ctrler.govParams != nil
 //@   modifies cell(delegatees), elems(delegatees)
 //@   allocates []*Delegatee
